@@ -115,6 +115,7 @@ func c13BFS(r *Run, strs []string, nkeys int, E []string, t uint32) {
 	submitters := []Account{AttMgr, Owner}
 
 	bfs := &BFS{
+		SeqDepth:      map[bool]int{true: 2, false: 1}[(len(E) == 2 && t == 1) || (r.Tier == "thorough" && len(E) <= 2)], // two-step sequences from the smaller start states
 		Scn:           scn,
 		MaxDepth:      64,
 		ValidatePaths: r.Shard == 0 || r.Tier == "quick",
